@@ -1306,7 +1306,7 @@ def rule_call_forwards(ctx: Ctx, rid="C09.CALL-FORWARDS", publish=False, no_try=
         direct = isinstance(v, ast.Call) and callee and (callee.startswith("self.") or via_local) and not v.args and \
             len(v.keywords) == 1 and v.keywords[0].arg is None and dotted(v.keywords[0].value) == kw
         others = [s for s in p.stmts() if s is not p.exit_node and not (isinstance(s, ast.Expr) and isinstance(s.value, ast.Constant))
-                  and s not in loads.values() and s is not result_stmt]
+                  and s not in loads.values() and s is not result_stmt and not flow.is_diagnostic_stmt(s)]
         touches_self = [s for s in others if any((isinstance(x, ast.Attribute) and dotted(x.value) == "self") or
                                                  (isinstance(x, ast.Name) and x.id == "self") for x in ast.walk(s))]
         same_callee = isinstance(v, ast.Call) and callee and (callee.startswith("self.") or via_local) and not v.args
